@@ -67,6 +67,11 @@ struct Shadow {
   bool hasInterruptedValue = false; std::string interruptedValue;
 };
 
+// Input ids travel through the engine (and the C interface) in a form that uses the upper half of the word, as a client passing a
+// pointer would: a narrowing anywhere on the way shows up as an id that was never requested.
+inline uintptr_t wireInputID(uintptr_t idx) { return sizeof(uintptr_t) >= 8 ? (idx ^ (uintptr_t)0x5A00000100ull) : idx; }
+inline uintptr_t unwireInputID(uintptr_t wire) { return sizeof(uintptr_t) >= 8 ? (wire ^ (uintptr_t)0x5A00000100ull) : wire; }
+
 struct Completion { std::string value; bool force; std::vector<int> leaves; };
 
 struct BuildTrace {   // per build, for differential comparison
